@@ -315,7 +315,17 @@ def run(rep, tier, seed):
                    ("(choice (r (str 4)) (r (choice (r int) (r bool))))", "(ch 1 (ch 1 (b 1)))"),
                    ("(choice (r null) (r (choice (r (choice (r oid) (r real))) (r int))))", "(ch 1 (ch 0 (ch 0 (oid 1 2 3))))"),
                    ("(seq (r (choice (r (str 4)) (r (choice (r int) (r bool))))) (r int))", "(seq (ch 1 (ch 1 (b 0))) (i 3))"),
-                   ("(seqof (choice (r (tag e c 0 (choice (r int) (r bool)))) (r (choice (r (str 12)) (r null)))))", "(of (ch 0 (ch 0 (i 1))) (ch 1 (ch 1 null)))")]:
+                   ("(seqof (choice (r (tag e c 0 (choice (r int) (r bool)))) (r (choice (r (str 12)) (r null)))))", "(of (ch 0 (ch 0 (i 1))) (ch 1 (ch 1 null)))"),
+                   # runs of OPTIONAL/DEFAULT members of untagged types (CHOICEs): an absent one followed by a present one
+                   ("(seq (o (choice (r int) (r bool))) (o (choice (r (str 4)) (r null))) (d (i 1) enum))", "(seq absent (ch 0 (s 41)) (i 1))"),
+                   ("(seq (o (choice (r int) (r bool))) (o (choice (r (str 4)) (r null))) (d (i 1) enum))", "(seq absent (ch 1 null) (i 7))"),
+                   ("(seq (o (choice (r int) (r bool))) (o (choice (r (str 4)) (r null))) (d (i 1) enum))", "(seq (ch 1 (b 1)) absent (i 1))"),
+                   ("(seq (o (choice (r int) (r bool))) (o (choice (r (str 4)) (r null))) (d (i 1) enum))", "(seq (ch 0 (i 5)) (ch 0 (s 4142)) (i 2))"),
+                   ("(seq (r int) (o (choice (r (tag i c 0 int)) (r (tag i c 1 int)))) (o (choice (r (tag i c 2 int)) (r (tag i c 3 (str 4))))) (o (choice (r bool) (r null))) (r (str 12)))",
+                    "(seq (i 1) absent absent (ch 1 null) (s 61))"),
+                   ("(seq (r int) (o (choice (r (tag i c 0 int)) (r (tag i c 1 int)))) (o (choice (r (tag i c 2 int)) (r (tag i c 3 (str 4))))) (o (choice (r bool) (r null))) (r (str 12)))",
+                    "(seq (i 1) absent (ch 1 (s 6162)) absent (s 61))"),
+                   ("(set (r int) (o (choice (r (tag i c 0 int)) (r (tag i c 1 int)))) (o (choice (r (tag i c 2 int)) (r bool))))", "(seq (i 1) absent (ch 1 (b 1)))")]:
         c = engine.Case(sexp_types.ty_of_sexp(gen.parse_sexps(ts)[0]), gen.val_of_sexp(gen.parse_sexps(vs)[0]))
         for mode in (('ber', True, 0), ('ber', False, 0), ('der', True, 0)):
             ie = codec.impl_encode(mode[0], c.t, c.v, mode[1], mode[2], obj=c.fresh_obj())
